@@ -666,7 +666,7 @@ func (FramesFaults) Execute(pl engine.Plan, c *engine.RunCtx) *engine.Failure {
 				// (bytes.Reader, and the io.SectionReader behind iohelper.AtToReader,
 				// which claims about 2^63 bytes): a size field must not be trusted
 				// more because the reader looks big
-				wk := []string{"", "", "bytesreader", "bytesbuffer", "bufio4096", "atreader"}[engine.H(p.Seed^0xc0ffee, uint64(R), bs)%6]
+				wk := []string{"", "", "bytesreader", "bytesbuffer", "bufio4096", "atreader", "osfile"}[engine.H(p.Seed^0xc0ffee, uint64(R), bs)%7]
 				var src source
 				if wk == "atreader" {
 					off := int64(engine.H(p.Seed, uint64(R))%3) * 4096
